@@ -37,9 +37,35 @@ def snapshot(msg):
     )
 
 
+class _Hostile:
+    """A value that cannot be looked at: every inspection of it raises."""
+
+    def _no(self, *a, **k):
+        raise RuntimeError("value inspected")
+
+    __repr__ = __str__ = __eq__ = __ne__ = __hash__ = __bool__ = __len__ = __format__ = __iter__ = _no
+    __int__ = __float__ = __index__ = __bytes__ = __lt__ = __gt__ = _no
+
+
+def _safe_repr(val):
+    try:
+        return repr(val)[:200]
+    except Exception as err:  # pylint: disable=broad-except
+        return f"<{type(val).__name__} whose repr raises {type(err).__name__}>"
+
+
 def value_for(kind, msg, name):
     if kind == "zero":
         return 0
+    if kind == "hostile":
+        return _Hostile()
+    if kind == "huge":
+        return 10 ** 5000  # its decimal rendering exceeds the interpreter's int -> str limit
+    if kind == "deep":
+        v = []
+        for _ in range(3000):
+            v = [v]
+        return v  # its repr exceeds the recursion limit
     if kind == "same":
         try:
             return getattr(msg, name)
@@ -131,6 +157,18 @@ def _prelude(kind):
 
 @core.guard
 def judge(case, reuse=False):
+    """With case['warnings'] = 'error' the attempts are made in a host that has turned warnings into
+    errors (python -W error, pytest -W error, warnings.simplefilter('error'))."""
+    if case.get("warnings"):
+        import warnings  # pylint: disable=import-outside-toplevel
+
+        with warnings.catch_warnings():
+            warnings.simplefilter(case["warnings"])
+            return _judge(case, False)
+    return _judge(case, reuse)
+
+
+def _judge(case, reuse=False):
     """
     One case = a fresh message and a sequence of assignment attempts.  With reuse=True (the
     enumeration) the message of the previous case is kept as long as it is provably untouched
@@ -175,7 +213,7 @@ def judge(case, reuse=False):
         try:
             setattr(msg, name, val)
             out.bad("assignment-accepted" + (":private" if name.startswith("_") else ""),
-                    f"{case['name']}: setattr(msg, {name!r}, {val!r}) did not raise")
+                    f"{case['name']}: setattr(msg, {name!r}, {_safe_repr(val)}) did not raise")
         except RTCMMessageError:
             pass
         except Exception as err:  # pylint: disable=broad-except
@@ -235,6 +273,17 @@ def _work(item):
         for name in ["payload", "_payload", "ZZ_new_public"] + pubs[:1]:
             case = {"name": it["name"], "payload": it["payload"], "prelude": prelude,
                     "attempts": [[name, "zero"]]}
+            st.add(case, judge(case))
+    # values that cannot be inspected (repr / str / comparison / hashing raise) and a host that has
+    # turned warnings into errors: the refusal must not depend on looking at the value or on
+    # emitting anything first
+    for name in ["payload", "_payload", "ZZ_new_public", "_immutable"] + pubs:
+        for kind in ("hostile", "huge", "deep"):
+            case = {"name": it["name"], "payload": it["payload"], "attempts": [[name, kind]]}
+            st.add(case, judge(case, reuse=True))
+        for wmode in ("error", "always"):
+            case = {"name": it["name"], "payload": it["payload"], "warnings": wmode,
+                    "attempts": [[name, "zero"], [name, "same"]]}
             st.add(case, judge(case))
     if pairs:
         priv = [n for n in names if n.startswith("_")]
